@@ -3,6 +3,6 @@
 cd "$(dirname "$0")/.."
 TIER=${1:-quick}
 for p in $(/venv/bin/python -c "import json;print(' '.join(c['property_id'] for c in json.load(open('MANIFEST.json'))['checks']))" 2>/dev/null); do
-  ( out=$(./check $p --tier $TIER 2>&1 | grep -v conda); code=$?; echo "$p exit=$(./check $p --tier $TIER >/dev/null 2>&1; echo $?) $(echo "$out" | tail -1)" ) &
+  ( out=$(./check $p --tier $TIER 2>&1); code=$?; echo "$p exit=$code $(echo "$out" | grep -v conda | tail -1)" ) &
 done
 wait
